@@ -76,9 +76,10 @@ def run(c):
     deadline = (time.time() + 14.0) if c.quick else (t_start + 10.5 * 60)
     slices = [jobs[k::nworkers] for k in range(nworkers)]
     ctx = multiprocessing.get_context("fork")
+    rb.CASES = cases                          # inherited by the forked workers
     with ctx.Pool(nworkers) as pool:          # forked before any thread exists in this process
         th.start()
-        parts = pool.map(rb.run_slice, [(cases, sl, c.seed, deadline, not c.quick) for sl in slices])
+        parts = pool.map(rb.run_slice, [(sl, c.seed, deadline, not c.quick) for sl in slices])
     th.join()
     if "err" in sens:
         raise sens["err"]
